@@ -104,7 +104,16 @@ def fault_programs(rng, w, n):
         ('string_elem_call', noisy + 'empty @is_you(int i, int b) { write("pre "); const string[] x = ["a", "b", "c"]; string[] y = ["p", "q", "r"]; y[i] = x[noisy(i, b)]; write(y[0]); write(" post"); }'),
         ('vla_len_call', noisy + 'empty @is_you(int i, int b) { write("pre "); int x[noisy(i, b)]; write(x.length); write(" post"); }'),
     ]
+    two += [
+        ('mod_param_length', 'int slot(int i, const byte[] buf) { return i % buf.length; }\nempty @is_you(int i, int b) { write("pre "); byte ring[b]; write(slot(i + 5, ring)); write(" post"); }'),
+        ('div_string_length', 'empty @is_you(string s, int b) { write("pre "); write(10 / s.length); write(10 % s.length); write(" post"); }'),
+        ('compound_length', 'empty @is_you(int i, int b) { write("pre "); int a[b]; int x = 17; x %= a.length; write(x); x = 9; x /= a.length; write(x); write(" post"); }'),
+        ('length_literal_arr', 'empty @is_you(int i, int b) { write("pre "); write(i / [].length); write(" post"); }'),
+    ]
     for name, src in two:
+        if name == 'div_string_length':
+            out += [(src, ['', '0'], 'two_' + name), (src, ['ab', '0'], 'two_' + name), (src, ['', '1'], 'two_' + name)]
+            continue
         for i in (0, 2, 3, -1, 7):
             for b in (0, 1, 2):
                 out.append((src, [str(i), str(b)], 'two_' + name))
@@ -156,7 +165,7 @@ def fault_programs(rng, w, n):
     rng.shuffle(out)
     if n >= len(out): return out
     # the ordering family is always represented by the out-of-range index with a zero and a non-zero divisor, and the in-range control
-    must = [o for o in out if o[2].startswith('two_') and (o[2].startswith('two_lengthwrap') or o[2].startswith('two_guard_before') or (o[2].startswith('two_bytelen') and o[1][0] == '255') or (o[1][0] in ('3', '0') and o[1][1:2] in (['0'], ['1'])))]
+    must = [o for o in out if o[2].startswith('two_') and (o[2].startswith('two_lengthwrap') or o[2].startswith('two_guard_before') or (o[2].startswith('two_bytelen') and o[1][0] == '255') or o[2] == 'two_div_string_length' or (o[1][0] in ('3', '0') and o[1][1:2] in (['0'], ['1'])))]
     rest = [o for o in out if o not in must]
     return must + rest[:max(0, n - len(must))]
 
@@ -260,6 +269,17 @@ def operator_programs(w):
     three(lambda x, y: '(%s is byte) + (%s is byte)' % (x, y), 'int', 'byteadd')
     three(lambda x, y: '((%s is byte) - (%s is byte)) is byte' % (x, y), 'byte', 'bytesub_trunc')
     three(lambda x, y: '(%s * %s) / (%s + 3)' % (x, y, y), 'int', 'mixed')
+    # `.length` of arrays whose length the compiler knows, narrowed to byte and used directly (value, comparison, bool, branch, defeat)
+    for n_ in (255, 256, 300, 511):
+        lines = ['bool flags[%d]; int words[%d]; const byte[] lit = [%s];' % (n_, n_, ', '.join(['1'] * min(n_, 300))), 'empty @is_you() {', '  int[] loc = [1, 2, 3];']
+        for x in ('flags', 'words', 'lit'):
+            e = '(%s.length is byte)' % x
+            lines += ['  write(%s + 0); write(\' \'); write(%s * 2); write(\' \'); write(%s == %d); write(%s < 256); write(%s is bool);' % (e, e, e, n_ % 256, e, e),
+                      '  if (%s is bool) { write("T"); } else { write("F"); }' % e,
+                      '  try { !truth_is_defeat(%s is bool); write("n"); } undo { write("d"); }' % e,
+                      '  byte st_%s = %s.length is byte; write(st_%s is int); write(-%s); write(\';\');' % (x, x, x, e)]
+        lines.append('}')
+        progs.append(('lenbyte%d' % n_, '\n'.join(lines)))
     progs.append(('strbool', 'empty @is_you(string s, const int[] xs) { write(s is bool); write(xs is bool); if (s is bool) { write("T"); } '
                              'try { !truth_is_defeat(xs is bool); write("n"); } undo { write("d"); } write(s.length); write(xs.length); }'))
     return progs
@@ -323,6 +343,10 @@ def order_programs(rng, n=None):
         ('int_index_moves', 'int cur = 0;\nint step() { cur += 1; return 9; }\n', 'int[] a = [1, 2, 3];', ['a[cur] += step();', 'a[cur] *= step();'],
          'write(a[0]); write(\',\'); write(a[1]); write(\',\'); write(a[2]); write(cur);'),
     ]
+    ce.append(('byte_global_index_oob', 'int gi = 0;\nbyte bump() { gi = 5; return 88; }\n', 'byte buf[4]; byte canary[4]; for (int k = 0; k < 4; k += 1) { buf[k] = 46; canary[k] = 99; }',
+               ['buf[gi] = bump();', 'gi = 1;', 'buf[gi] += bump();'], 'write(buf); write(\' \'); write(canary); write(gi);'))
+    ce.append(('int_global_index_oob', 'int gi = 0;\nint bump() { gi = 6; return 88; }\n', 'int buf[4]; int canary[4]; for (int k = 0; k < 4; k += 1) { buf[k] = 1; canary[k] = 2; }',
+               ['buf[gi] = bump();', 'gi = 1;', 'buf[gi] *= bump();'], 'write(buf[0]); write(buf[1]); write(canary[1]); write(canary[2]); write(gi);'))
     for tag, pre, decl, stmts, show in ce:
         out.append((pre + 'empty @is_you() { %s %s %s }' % (decl, ' '.join(stmts), show), [], 'compound_elem_' + tag))
     # indexing a string whose address was computed, with an index expression that needs the same scratch registers
@@ -509,6 +533,11 @@ def preempt_programs():
         'dfn_twice': ('empty !guard(int x) { preempt { write(\'P\'); x -= 2; } !truth_is_defeat(x > 3); }\n', '!guard(x - 2); write(\'m\'); !guard(x); write(\'k\');'),
         'dfn_loop': ('empty !guard(int x) { for (int i = 0; i < 2; i += 1) { preempt { write(\'P\'); x -= 1; } } !truth_is_defeat(x > 3); }\n', '!guard(x); write(\'k\');'),
         'value_dfn': ('int !pick(int x) { preempt { write(\'P\'); x = 0; } !truth_is_defeat(x > 5); return x + 1; }\n', 'int y = !pick(x); write(y);'),
+        'leave_break': ('', 'for (int i = 0; i < 5; i += 1) { write(i); preempt { break; } } !truth_is_defeat(x > 3); write(\'k\');'),
+        'leave_continue': ('', 'for (int i = 0; i < 4; i += 1) { preempt { write(\'P\'); continue; } write(i); } !truth_is_defeat(x > 3); write(\'k\');'),
+        'leave_defeat': ('', 'for (int i = 0; i < 4; i += 1) { write(i); preempt { !is_defeat(); } } !truth_is_defeat(x > 3); write(\'k\');'),
+        'leave_break_dfn': ('empty !scan(int x) { for (int i = 0; i < 5; i += 1) { write(i); preempt { break; } } !truth_is_defeat(x > 3); write(\'g\'); }\n', '!scan(x); write(\'k\');'),
+        'leave_return_dfn': ('empty !early(int x) { write(\'e\'); preempt { write(\'P\'); return; } write(\'l\'); !truth_is_defeat(x > 3); }\n', '!early(x); !truth_is_defeat(x > 8); write(\'k\');'),
         'preempt_only_helps': ('empty !guard(int x) { preempt { write(\'P\'); x = 0; } !truth_is_defeat(x > 3); write(\'g\'); }\n', '!guard(x); write(\'k\');'),
     }
     for hk in ('stop', 'undo'):
